@@ -18,18 +18,18 @@ fn main() {
         if do_mask {
             match m.compute_mask() {
                 Ok(mask) => println!("mask before {:?}: {} tokens, allowed={}", b as char, mask_ids(&mask).len(), mask.is_allowed(b as u32)),
-                Err(e) => { println!("mask error: {}", e.to_string().lines().take(3).collect::<Vec<_>>().join(" | ")); return; }
+                Err(e) => { println!("mask error: {}", e.to_string().lines().next().unwrap_or("").to_string()); return; }
             }
         }
         if let Err(e) = m.consume_token(b as u32) {
-            println!("consume {:?} error: {}", b as char, e.to_string().lines().take(3).collect::<Vec<_>>().join(" | "));
+            println!("consume {:?} error: {}", b as char, e.to_string().lines().next().unwrap_or("").to_string());
             return;
         }
         println!("consumed {:?} stop={}", b as char, m.stop_reason());
     }
     match m.compute_mask() {
         Ok(mask) => println!("final mask: {:?}", mask_ids(&mask).iter().take(40).collect::<Vec<_>>()),
-        Err(e) => println!("final mask error: {}", e.to_string().lines().take(3).collect::<Vec<_>>().join(" | ")),
+        Err(e) => println!("final mask error: {}", e.to_string().lines().next().unwrap_or("").to_string()),
     }
     println!("accepting={:?} ffbytes={:?}", m.is_accepting(), String::from_utf8_lossy(&m.compute_ff_bytes()));
 }
